@@ -2146,6 +2146,11 @@ func (c *compiler) VisitFuncCall(e *ast.FuncCall) ast.VisitResult {
 		c.latestReturn = c.cbb.NewCall(fun.irFunc, args...)
 	} else {
 		c.cbb.NewCall(fun.irFunc, args...)
+		// a generic extern function filled a ddpgenericlist: it is the list of this instantiation
+		if instRet := c.toIrType(e.Func.ReturnType); instRet != irReturnType {
+			ret = c.cbb.NewBitCast(ret, instRet.PtrType())
+			irReturnType = instRet
+		}
 		c.latestReturn, c.latestReturnType = c.scp.addTemporary(ret, irReturnType)
 		c.latestIsTemp = true
 	}
